@@ -5,3 +5,6 @@ export CARGO_NET_OFFLINE=true
 unset CARGO_TARGET_DIR CARGO_BUILD_TARGET_DIR RUSTFLAGS CARGO_ENCODED_RUSTFLAGS
 mkdir -p target
 cargo build --release --offline 2>&1 | tail -3
+# warm the secondary engine (Miri) so that the first check does not pay for its build
+cd ../miri && MIRIFLAGS="-Zmiri-permissive-provenance" cargo +nightly miri run --offline -- collect 1 2>&1 | tail -2
+exit 0
